@@ -219,6 +219,54 @@ func init() {
 				serve = func(req *http.Request) rig.Answer { return rig.Answer{Body: small} }
 			})
 			_ = sc.CM.UpdateExtraConfig(prom.ExtraConfig{})
+			// the same through the server that Proxy.Run itself starts (what cmd/kvass uses), not a test server
+			// wrapped around the handler: a body breaking off mid-way must reach Prometheus as a failed response
+			if c.Part == 0 && assigned {
+				idx++
+				l, err := gonet.Listen("tcp", "127.0.0.1:0")
+				if err != nil {
+					chk.Fatalf("listen: %v", err)
+				}
+				addr := l.Addr().String()
+				l.Close()
+				go func() { _ = sc.Px.Run(addr) }()
+				for i := 0; i < 200; i++ { // readiness only
+					if cn, err := gonet.Dial("tcp", addr); err == nil {
+						cn.Close()
+						break
+					}
+					time.Sleep(10 * time.Millisecond)
+				}
+				pu2, _ := url.Parse("http://" + addr)
+				cli2 := &http.Client{Transport: &http.Transport{Proxy: http.ProxyURL(pu2), DisableKeepAlives: true}, Timeout: 5 * time.Second}
+				get := func() (int, []byte, error) {
+					resp, err := cli2.Get(rig.ProxyURL("j1", 1, "http", "t1:80", "/metrics", nil))
+					if err != nil {
+						return 0, nil, err
+					}
+					defer resp.Body.Close()
+					b, rerr := io.ReadAll(resp.Body)
+					return resp.StatusCode, b, rerr
+				}
+				ok(small, false)()
+				if code, b, err := get(); err != nil || code != 200 || !bytes.Equal(b, small) {
+					r.Violate("C13:success-failed:through-Proxy.Run", "success-is-success", fmt.Sprintf("a successful scrape through the server started by Proxy.Run: status %d, %d bytes, %v", code, len(b), err), idx,
+						&c13Replay{Property: "C13", Clause: "success-is-success", Case: c13Case{Kind: "success-through-Proxy.Run", Assigned: true}})
+				}
+				for _, cut := range []int{1, 20, len(small) / 2, len(small) - 1} {
+					cut := cut
+					serve = func(req *http.Request) rig.Answer {
+						return rig.Answer{BodyReader: func() io.ReadCloser { return &breakReader{data: small, cut: cut, chunk: 64} }}
+					}
+					code, b, err := get()
+					r.States++
+					r.Transitions++
+					if err == nil && code == 200 {
+						r.Violate("C13:complete-200:body-breaks:through-Proxy.Run", "prometheus-side-fails", fmt.Sprintf("through the server started by Proxy.Run: the target's body broke off after %d of %d bytes, Prometheus received a complete 200 response with %d bytes", cut, len(small), len(b)), idx,
+							&c13Replay{Property: "C13", Clause: "prometheus-side-fails", Case: c13Case{Kind: "body-breaks-through-Proxy.Run", Cut: cut, BodyLen: len(small), Assigned: true}})
+					}
+				}
+			}
 			// failures of different kinds following each other without a success in between, on one sidecar: after
 			// each one the recorded reason is that of the latest failure (all orders of three kinds)
 			if c.Part == 0 && assigned {
